@@ -1,0 +1,14 @@
+//go:build verif
+
+package protocol
+
+import "go.nanomsg.org/mangos/v3/internal/core"
+
+// VerifPipeIDsInUse re-exports the core accessor (core is internal).
+func VerifPipeIDsInUse() int { return core.VerifPipeIDsInUse() }
+
+// VerifPipeIDInUse re-exports the core accessor.
+func VerifPipeIDInUse(id uint32) bool { return core.VerifPipeIDInUse(id) }
+
+// VerifPipesListed re-exports the core accessor.
+func VerifPipesListed(s Socket) int { return core.VerifPipesListed(s) }
